@@ -19,6 +19,12 @@ import XmppModel.Model.Muc
       Ej<c>:<shape> / El<c>:<shape>  the error reply with the given children (harness/c18/reply.go):
         x echoed muc x, w white space, p echoed <priority/>, s echoed <status/>, then the error element
         (e b n a m t g: forms of the error; its namespace is the session's)
+      K<c> | K<c>@<a>  a (further) Join call of channel c whose context is already over: it gives up before
+        its hand-off request is queued;  R<c>xc | R<c>xr  it returned the context's error / ErrOccupantInUse
+      J<c>~ (J<c>@<a>~) / L<c>~  the call is made while the connection refuses every write: the request
+        cannot be sent;  R<c>oe / D<c>oe  Join / Leave returned an error that is neither the room's nor the context's
+      form `0` of an error reply (Ej<c>:x0, El<c>:0 …): a type='error' presence WITHOUT an error element
+      I<children>: every m / M / P child is one mediated invitation payload (several per message allowed)
     answer: `joined=<bits> upres=<n> inv=<n>` or `bad@n:tok`
 -/
 namespace XmppModel.Driver.C18
@@ -80,38 +86,57 @@ def shapeChild (ns : String) (c : Char) : Option RChild :=
   else if c = 'e' ∨ c = 'b' ∨ c = 'n' ∨ c = 'a' ∨ c = 'm' ∨ c = 't' ∨ c = 'g' then some (.elem ns "error")
   else none
 
-/-- the reply is one the model's `joinError` / `leaveError` stand for iff the scan finds the error
-element, which is the last child of the shape -/
-def replyOk (ns : String) (shape : List Char) : Bool :=
-  match mapM? (shapeChild ns) shape with
-  | some cs => cs.length > 0 && findError cs == some (cs.length - 1)
-  | none => false
+/-- what the scan makes of the reply: `some true` the error element is found (it is the last child of
+the shape): the model's `joinError` / `leaveError`; `some false` (form `0`: no error element) nothing is
+found: `joinFail` / `leaveFail`; `none`: not a shape -/
+def replyKind (ns : String) (shape : List Char) : Option Bool :=
+  match shape.reverse with
+  | '0' :: pre =>
+    match mapM? (shapeChild ns) pre.reverse with
+    | some cs => if (replyAct false 0 cs).isNone then some false else none
+    | none => none
+  | _ =>
+    match mapM? (shapeChild ns) shape with
+    | some cs => if cs.length > 0 && findError cs == some (cs.length - 1) && (replyAct false 0 cs).isSome then some true else none
+    | none => none
 
-/-- `<c>` or `<c>:<shape>` -/
-def replyChan (ns : String) (r : List Char) : Option (List Char) :=
+/-- `<c>` or `<c>:<shape>`: the channel and whether the reply is a refusal -/
+def replyChan (ns : String) (r : List Char) : Option (List Char × Bool) :=
   match (String.ofList r).splitOn ":" with
-  | [cs] => some cs.toList
-  | [cs, sh] => if replyOk ns sh.toList then some cs.toList else none
+  | [cs] => some (cs.toList, true)
+  | [cs, sh] => (replyKind ns sh.toList).map fun k => (cs.toList, k)
   | _ => none
 
 def applyTok (ns : String) (n : Nat) (s : St) (tok : String) : Option St :=
   let idx (r : List Char) : Option Nat := do let c ← numOf r; if c < n then some c else none
   -- a trailing `!` on J / L: the call went through JoinPresence / LeavePresence with a presence of
   -- the caller's; the bookkeeping is the same
-  let bang (r : List Char) : List Char := if r.getLast? = some '!' then r.dropLast else r
+  let bang (r : List Char) : List Char := if r.getLast? = some '!' ∨ r.getLast? = some '~' then r.dropLast else r
+  let faulty (r : List Char) : Bool := r.getLast? = some '~'
+  -- a call made while the connection refuses every write: its request is never sent (`joinFail`)
+  let after (r : List Char) (c : Nat) (s' : St) : Option St :=
+    if faulty r ∧ s'.jpc c = .pending then step s' (.joinFail c) else some s'
   match tok.toList with
   | 'J' :: r =>
     -- J<c>: Join asking for the address the channel holds;  J<c>@<a>: Nick option, address a
     match (String.ofList (bang r)).splitOn "@" with
-    | [cs] => do let c ← idx cs.toList; step s (.joinStart c (s.cur c))
-    | [cs, as] => do let c ← idx cs.toList; let a ← as.toNat?; step s (.joinStart c a)
+    | [cs] => do let c ← idx cs.toList; (step s (.joinStart c (s.cur c))).bind (after r c)
+    | [cs, as] => do let c ← idx cs.toList; let a ← as.toNat?; (step s (.joinStart c a)).bind (after r c)
+    | _ => none
+  | 'K' :: r =>
+    match (String.ofList r).splitOn "@" with
+    | [cs] => do let c ← idx cs.toList; step s (.joinAbort c (s.cur c))
+    | [cs, as] => do let c ← idx cs.toList; let a ← as.toNat?; step s (.joinAbort c a)
     | _ => none
   | 's' :: r => do let _ ← idx r; some s   -- entering the select is not a model step
   | 'A' :: r => do let a ← presAddr r; step s (.avail a)
   | 'U' :: r => do let a ← presAddr r; step s (.unavail a)
-  | 'E' :: 'j' :: r => do let c ← (replyChan ns r).bind idx; step s (.joinError c)
+  | 'E' :: 'j' :: r => do
+    let (cs, k) ← replyChan ns r
+    let c ← idx cs
+    step s (if k then .joinError c else .joinFail c)
   | 'X' :: 'j' :: r => do let c ← idx r; step s (.joinCancel c)
-  | 'E' :: 'l' :: r => do let c ← (replyChan ns r).bind idx; chk (s.lpc c == .waiting) s
+  | 'E' :: 'l' :: r => do let c ← ((replyChan ns r).map (·.1)).bind idx; chk (s.lpc c == .waiting) s
   | 'X' :: 'l' :: r => do let c ← idx r; chk (s.lpc c == .waiting) s
   | 'R' :: r =>
     let str := String.ofList r
@@ -129,6 +154,16 @@ def applyTok (ns : String) (n : Nat) (s : St) (tok : String) : Option St :=
       let c ← (str.dropEnd 2).toString.toNat?
       let s' ← step s (.joinCleanup c)
       chk (s'.lastJoin c == some (.err .ctxErr)) s'
+    else if str.endsWith "oe" then do
+      let c ← (str.dropEnd 2).toString.toNat?
+      let s' ← step s (.joinCleanup c)
+      chk (s'.lastJoin c == some (.err .other)) s'
+    else if str.endsWith "xc" then do
+      let c ← (str.dropEnd 2).toString.toNat?
+      chk (s.lastAbort c == some (.err .ctxErr)) s
+    else if str.endsWith "xr" then do
+      let c ← (str.dropEnd 2).toString.toNat?
+      chk (s.lastAbort c == some (.err .refused)) s
     else none
   | 'L' :: r => do let c ← idx (bang r); step s (.leaveStart c)
   | 'l' :: r => do let _ ← idx r; some s
@@ -143,6 +178,9 @@ def applyTok (ns : String) (n : Nat) (s : St) (tok : String) : Option St :=
     else if str.endsWith "ce" then do
       let c ← (str.dropEnd 2).toString.toNat?
       step s (.leaveCancel c)
+    else if str.endsWith "oe" then do
+      let c ← (str.dropEnd 2).toString.toNat?
+      step s (.leaveFail c)
     else none
   | 'I' :: r =>
     -- I<children>: b body, s subject, l legacy x, u unrelated, m / M muc#user x with an invitation, d decline
@@ -156,10 +194,38 @@ def applyTok (ns : String) (n : Nat) (s : St) (tok : String) : Option St :=
     chk (l == (List.range n).map s.cur) s
   | _ => none
 
-def replay (ns : String) (n : Nat) : List String → Nat → St → Except String St
-  | [], _, s => .ok s
-  | t :: ts, k, s => match applyTok ns n s t with
-    | some s' => replay ns n ts (k + 1) s'
+/-- driver state: the model's state and, per channel, what the reply / fault that ends the waiting
+`Leave` is (`some true`: the room's error was found, `some false`: send failure or a reply without an
+error element) — the model's `leaveError` / `leaveFail` are taken when `Leave` returns, and must be the
+one the reply calls for -/
+structure DS where
+  s : St
+  lrep : Nat → Option Bool
+
+def applyTokD (ns : String) (n : Nat) (d : DS) (tok : String) : Option DS :=
+  let num (r : List Char) : Option Nat := do let c ← numOf r; if c < n then some c else none
+  match tok.toList with
+  | 'L' :: r => do
+    let s' ← applyTok ns n d.s tok
+    let c ← num (if r.getLast? = some '!' ∨ r.getLast? = some '~' then r.dropLast else r)
+    some { s := s', lrep := upd d.lrep c (if r.getLast? = some '~' then some false else none) }
+  | 'E' :: 'l' :: r => do
+    let s' ← applyTok ns n d.s tok
+    let (cs, k) ← replyChan ns r
+    let c ← num cs
+    some { s := s', lrep := upd d.lrep c (some k) }
+  | 'D' :: r => do
+    let str := String.ofList r
+    let c ← (str.dropEnd 2).toString.toNat?
+    if str.endsWith "se" ∧ d.lrep c ≠ some true then none
+    else if str.endsWith "oe" ∧ d.lrep c ≠ some false then none
+    else do let s' ← applyTok ns n d.s tok; some { d with s := s' }
+  | _ => do let s' ← applyTok ns n d.s tok; some { d with s := s' }
+
+def replay (ns : String) (n : Nat) : List String → Nat → DS → Except String St
+  | [], _, d => .ok d.s
+  | t :: ts, k, d => match applyTokD ns n d t with
+    | some d' => replay ns n ts (k + 1) d'
     | none => .error s!"bad@{k}:{t}"
 
 def handle (args : List String) : Option String :=
@@ -171,7 +237,7 @@ def handle (args : List String) : Option String :=
     let ((ns, cb), toks) := match toks with
       | t :: ts => (match cfgNs t with | some c => (c, ts) | none => ((nsClient, true), toks))
       | [] => ((nsClient, true), toks)
-    match replay ns l.length toks 0 (init addr) with
+    match replay ns l.length toks 0 ⟨init addr, fun _ => none⟩ with
     | .ok s => pure s!"joined={bits l.length s} upres={if cb then s.upres else 0} inv={if cb then s.invites else 0}"
     | .error e => pure e
   | _ => none
